@@ -22,3 +22,9 @@ pub fn fastrand_u64_any(range: impl RangeBounds<u64>) -> u64 {
 pub fn format_empty(_args: core::fmt::Arguments<'_>) -> String {
     String::new()
 }
+
+/// Stub for `core::str::from_utf8` in the C12 name-validator harnesses: `http` re-validates (debug builds only) the UTF-8
+/// of a header name it has already checked byte by byte against its token table; that re-validation is not the subject.
+pub fn from_utf8_trusting(v: &[u8]) -> Result<&str, core::str::Utf8Error> {
+    Ok(unsafe { core::str::from_utf8_unchecked(v) })
+}
